@@ -51,7 +51,7 @@ pub fn check_one(m: &AnyManifest, ruleset_name: &str) -> Verdict {
     match res {
         Err(p) => Verdict { accepted: false, error: None, oracle, violation: Some(format!("interpreter-panic:{}", p.site())), panic: Some(p) },
         Ok(Ok(())) => {
-            let violation = oracle.as_ref().err().map(|inv| format!("accepted-invalid:{}:{}", inv.class, ruleset_name));
+            let violation = oracle.as_ref().err().map(|inv| format!("accepted-invalid:{}:{}", inv.cause(), ruleset_name));
             Verdict { accepted: true, error: None, oracle, violation, panic: None }
         }
         Ok(Err(e)) => Verdict { accepted: false, error: Some(variant_name(&e)), oracle, violation: None, panic: None },
@@ -73,7 +73,7 @@ pub fn spec() -> Spec {
     .floor("accepted", 10_000)
     .floor("rejected", 10_000)
     .floor("accepted:with-faults-injected", 300)
-    .floor("error_variants_seen", 12)
+    .floor("error_variants_seen", 15)
     .floor("distinct_nontrivial", 10_000)
     .explain(
         "Each case = one generated manifest x one ruleset. Manifests are random instruction sequences steered by a lifecycle model with a per-manifest \
@@ -98,13 +98,14 @@ fn cfg_for(rng: &mut Rng, kind: Kind) -> ManifestCfg {
         extra_blobs: true,
         aliases: rng.bool(),
         deep_chain_pct: 5,
+        ill_formed_pct: 3,
     }
 }
 
 pub fn run(args: &Args) -> Report {
     let mut report = Report::new(args, spec());
     let budget = Duration::from_secs(budget_secs(args.tier, 30, 480));
-    let cap = scaled(args, args.tier.pick(120_000, 10_000_000)) / args.threads as u64 + 1;
+    let cap = scaled(args, args.tier.pick(4_000_000, 150_000_000)) / args.threads as u64 + 1;
     report.run_shards(36, args.threads, budget, |idx, rng, shard| {
         let mut i = 0u64;
         let mut evals = 0u64;
@@ -154,7 +155,7 @@ pub fn run(args: &Args) -> Report {
                         sig,
                         json!({
                             "manifest_hex": hex, "kind": kind.name(), "ruleset": rsn, "shard": idx, "iteration": i,
-                            "oracle": v.oracle.as_ref().err().map(|e| json!({"class": e.class, "at_instruction": e.at, "detail": e.detail})),
+                            "oracle": v.oracle.as_ref().err().map(|e| json!({"class": e.class, "at_instruction": e.at, "instruction": e.at_op, "detail": e.detail})),
                             "panic": v.panic.as_ref().map(|p| p.summary()),
                             "instructions": g.ops,
                         }),
